@@ -63,7 +63,7 @@ func errStr(e error) string {
 // thread bodies
 var bodies = map[string]string{
 	"r1": "reply r1", "r2": "reply r2", "cd": "Close(deaded)", "cn": "Close(nil)",
-	"p1": "PipeTo(f1)", "p12": "PipeTo(f1,f2)", "p2": "PipeTo(f2)", "res": "Result()", "wait": "Wait()",
+	"p1": "PipeTo(f1)", "p1c": "PipeTo(f1, a clone of f1, f1 parsed again)", "p12": "PipeTo(f1,f2)", "p2": "PipeTo(f2)", "res": "Result()", "wait": "Wait()",
 }
 
 func scenario(threads []string, timeout time.Duration, bounds []int) *vexp.Scenario {
@@ -105,6 +105,11 @@ func scenario(threads []string, timeout time.Duration, bounds []int) *vexp.Scena
 					case "p1":
 						piped["/f1"]++
 						f.PipeTo(vivid.ActorRefs{f1})
+					case "p1c":
+						// one call naming the same actor through three distinct reference objects: still one forwarder
+						piped["/f1"]++
+						again, _ := actor.NewRef(f1.GetAddress(), f1.GetPath())
+						f.PipeTo(vivid.ActorRefs{f1, f1.Clone(), again})
 					case "p2":
 						piped["/f2"]++
 						f.PipeTo(vivid.ActorRefs{f2})
@@ -217,7 +222,7 @@ func build(tier string) []*vexp.Scenario {
 	}
 	var out []*vexp.Scenario
 	completers := []string{"r1", "r2", "cd", "cn"}
-	others := []string{"p1", "p12", "res", "wait"}
+	others := []string{"p1", "p1c", "p12", "res", "wait"}
 	for _, a := range completers {
 		for _, b := range append(completers, others...) {
 			for _, to := range []time.Duration{0, time.Second} {
